@@ -82,7 +82,7 @@ def families(tier, seed):
         out.append(dict(name=f'chain games: persistence sets take turns over several outer iterations [{be}]', run=gm.chain_games(be), label='bounded'))
     for be in ('cudd', 'autoref'):
         out.append(dict(name=f'same automaton object solved again after its game was replaced [{be}]',
-                        run=gm.resolve_same_automaton('rabin', seed, 8 if tier == 'quick' else 120, be), label='bounded'))
+                        run=gm.resolve_same_automaton('rabin', seed, 60 if tier == 'quick' else 400, be), label='bounded'))
     from contracts import optdiff as _od
     out.append(dict(name='same results with assert statements stripped (python -O), section C01', run=_od.family('C01'), label='bounded'))
     return out
